@@ -268,7 +268,7 @@ func genProbe(rt *rapid.T) Op {
 
 func TestReuseHistory(t *testing.T) {
 	hx.Rule("reuse_history", "histories (<= 12 steps) on one Tokenizer and one Parser: tokenize valid/invalid/comment-heavy input, tokenize cancelled at poll k, parse through plain/context/positions/recovery entry points and cancelled at poll k (valid, invalid, failing deep inside nesting, over the depth limit), apply strict mode / dialect, Reset, Release, Put->Get through the pools (goroutine pinned, GC off); after the history a probe (incl. an input exactly as deep as a fresh parser accepts, a dialect-sensitive LIMIT, stray semicolons) must give identical tokens, comments, dialect, tree and error text to fresh instances configured as the current holder did; non-trivial = history has a failing or cancelled call, or an option change followed by Reset/Put-Get; distinct = op kinds + input classes")
-	histCheck.Rapid(t, hx.N(4000, 200000), func(rt *rapid.T) History {
+	histCheck.Rapid(t, hx.N(20000, 200000), func(rt *rapid.T) History {
 		n := rapid.IntRange(1, 12).Draw(rt, "nops")
 		var h History
 		var kinds []string
